@@ -153,7 +153,15 @@ func execute(in input, ops []execOp, d time.Duration) (all []execOp, obs []execO
 		var ob execObs
 		switch o.t {
 		case "s":
-			ob.code = errCode(mb.Send(o.m))
+			done := make(chan error, 1)
+			go func() { done <- mb.Send(o.m) }()
+			select {
+			case err := <-done:
+				ob.code = errCode(err)
+			case <-time.After(5 * time.Second):
+				ob.code = codeHang
+				hang = true
+			}
 		case "t":
 			if pendingCount > 0 && !closed {
 				firedBefore := log.fired.Load()
